@@ -20,11 +20,23 @@ mod verif_kani {
         assert!(capacity <= MAX, "reservation out of proportion to the message");
         Vec::new()
     }
+    // the explicit reservation APIs get the same treatment (Vec::push grows through RawVec internals, not through these)
+    fn checked_reserve<T, A: core::alloc::Allocator>(_v: &mut Vec<T, A>, additional: usize) {
+        assert!(additional <= MAX, "reservation out of proportion to the message");
+    }
+    fn checked_try_reserve<T, A: core::alloc::Allocator>(_v: &mut Vec<T, A>, additional: usize) -> core::result::Result<(), alloc::collections::TryReserveError> {
+        assert!(additional <= MAX, "reservation out of proportion to the message");
+        Ok(())
+    }
 
     #[kani::proof]
     #[kani::unwind(5)]
     #[kani::stub(std::backtrace::Backtrace::capture, no_backtrace)]
     #[kani::stub(alloc::vec::Vec::with_capacity, checked_with_capacity)]
+    #[kani::stub(alloc::vec::Vec::reserve, checked_reserve)]
+    #[kani::stub(alloc::vec::Vec::reserve_exact, checked_reserve)]
+    #[kani::stub(alloc::vec::Vec::try_reserve, checked_try_reserve)]
+    #[kani::stub(alloc::vec::Vec::try_reserve_exact, checked_try_reserve)]
     fn vk_u10_trigger_total() {
         let registry = MaybeUninit::<AppTypeRegistry>::uninit();
         let mut ctx = ServerReceiveCtx {
